@@ -453,6 +453,64 @@ def run(ctx, col: Collector):
         if not stores:
             col.bad('C05-enum', 'ColumnBlueprint.build:links-enum', 'the column type is never replaced by an Enum object', node=cb.node, file=cb.file)
             return
+        # --- the type text compared AS WRITTEN with spellings built from each enum (`self.type in (e.name, f'{e.schema}.{e.name}')`, an index keyed by such a
+        # spelling).  What must hold: an enum of the default schema answers to `name` and to `<default>.name`, any other enum only to `schema.name`.
+        raw = {'self.type'} | {norm(a.targets[0]) for a in ast.walk(cb.node) if isinstance(a, ast.Assign) and len(a.targets) == 1 and isinstance(a.targets[0], ast.Name)
+                               and norm(a.value) == 'self.type'}
+        enum_vars = {norm(n.target) for n in ast.walk(cb.node) if isinstance(n, (ast.For, ast.comprehension)) and norm(n.iter).endswith('.enums') and isinstance(n.target, ast.Name)}
+
+        def spelling(k: ast.AST, ev_: str, public: bool):
+            if isinstance(k, ast.Attribute) and norm(k) == f'{ev_}.name':
+                return 'NAME'
+            parts = None
+            if isinstance(k, ast.JoinedStr):
+                parts = [norm(v.value) if isinstance(v, ast.FormattedValue) else repr(v.value) for v in k.values]
+            elif isinstance(k, ast.BinOp) and isinstance(k.op, ast.Add):
+                from ..strctx import flatten_concat
+                parts = [norm(v) if not isinstance(v, ast.Constant) else repr(v.value) for v in flatten_concat(k)]
+            if parts == [f'{ev_}.schema', "'.'", f'{ev_}.name']:
+                return 'QUAL'
+            if parts and len(parts) == 2 and parts[1] == f'{ev_}.name' and parts[0].startswith("'") and parts[0].endswith(".'"):
+                return 'QUAL' if public and parts[0] in ("'public.'",) else None      # a literal schema prefix
+            if isinstance(k, ast.IfExp):
+                t = term(k.test, True)
+                if t[0] == 'eq' and f'{ev_}.schema' in t[1:] and any(str(x).startswith(("'", '"')) for x in t[1:]):
+                    return spelling(k.body if public else k.orelse, ev_, public)
+                if t[0] == 'not' and isinstance(t[1], tuple) and t[1][0] == 'eq' and f'{ev_}.schema' in t[1][1:]:
+                    return spelling(k.orelse if public else k.body, ev_, public)
+            return None
+        raw_cmp = []
+        for c in ast.walk(cb.node):
+            if isinstance(c, ast.Compare) and len(c.ops) == 1:
+                l_, r_ = c.left, c.comparators[0]
+                if isinstance(c.ops[0], ast.Eq):
+                    for a_, b_ in ((l_, r_), (r_, l_)):
+                        if norm(a_) in raw and any(isinstance(x, ast.Name) and x.id in enum_vars for x in ast.walk(b_)):
+                            raw_cmp.append((c, [b_]))
+                elif isinstance(c.ops[0], ast.In) and norm(l_) in raw and isinstance(r_, (ast.Tuple, ast.List, ast.Set)) \
+                        and any(isinstance(x, ast.Name) and x.id in enum_vars for x in ast.walk(r_)):
+                    raw_cmp.append((c, list(r_.elts)))
+        if raw_cmp:
+            c0, keys_ = raw_cmp[0]
+            ev_ = next(x.id for k in keys_ for x in ast.walk(k) if isinstance(x, ast.Name) and x.id in enum_vars)
+            pub = [spelling(k, ev_, True) for k in keys_]
+            oth = [spelling(k, ev_, False) for k in keys_]
+            cons_k = 'ColumnBlueprint.build:type-spellings'
+            if None in pub or None in oth:
+                col.unk('C05-enum', cons_k, f'the type text is compared as written with `{norm(c0)[:80]}`; cannot read which spellings that accepts', node=c0, file=cb.file)
+            elif 'NAME' in oth:
+                col.bad('C05-enum', cons_k, f'the type text is compared as written (`{norm(c0)[:80]}`) and an enum OUTSIDE the default schema also answers to its bare name: a bare type '
+                        f'name, which means the public enum (or no enum), links to a same-named enum of another schema', node=c0, file=cb.file)
+            elif 'QUAL' not in pub:
+                col.bad('C05-enum', cons_k, f'the type text is compared as written (`{norm(c0)[:80]}`) and an enum of the default schema answers only to its bare name: a type written '
+                        f'`public.<name>` keeps its string type instead of the Enum object', node=c0, file=cb.file)
+            elif 'NAME' not in pub:
+                col.bad('C05-enum', cons_k, f'the type text is compared as written (`{norm(c0)[:80]}`) and an enum of the default schema does not answer to its bare name', node=c0, file=cb.file)
+            elif 'QUAL' not in oth:
+                col.bad('C05-enum', cons_k, f'the type text is compared as written (`{norm(c0)[:80]}`) and an enum of another schema does not answer to `schema.name`', node=c0, file=cb.file)
+            else:
+                col.ok('C05-enum', cons_k, 'public enums answer to `name` and `public.name`, others to `schema.name` only', node=c0, file=cb.file)
+            return
         # the scan: a for loop over <...>.enums that contains the store
         loops = [n for n in ast.walk(cb.node) if isinstance(n, ast.For) and norm(n.iter).endswith('.enums') and any(s is x for s in stores for x in ast.walk(n))]
         if not loops:
